@@ -77,6 +77,9 @@ pub struct Armed {
     pub at: usize,
     pub kind: FaultKind,
     pub amount: usize,
+    /// when set, `at` is ignored for write faults: the fault fires on the first write call that
+    /// reaches this byte offset of the operation's output (robust to buffering in the code under test)
+    pub byte: Option<usize>,
 }
 
 struct Handle {
@@ -217,7 +220,15 @@ impl FsBackend for SimDisk {
             return Ok(0);
         }
         let mut accept = buf.len();
-        if let Some(a) = s.take(|a| a.at == idx && matches!(a.kind, FaultKind::ShortWrite | FaultKind::EintrWrite | FaultKind::WriteFail(_) | FaultKind::WriteZero)) {
+        let lo = s.op_bytes_written;
+        let hi = lo + buf.len();
+        if let Some(a) = s.take(|a| {
+            matches!(a.kind, FaultKind::ShortWrite | FaultKind::EintrWrite | FaultKind::WriteFail(_) | FaultKind::WriteZero)
+                && match a.byte {
+                    Some(b) => b < hi,
+                    None => a.at == idx,
+                }
+        }) {
             match a.kind {
                 FaultKind::ShortWrite => {
                     if buf.len() >= 2 {
